@@ -31,7 +31,7 @@ Proof. intros T q Ha Hu. unfold q_until', q_asof0, tbl_asof, tbl_until. rewrite 
 
 Example C07_nonvacuous :
   let T := {| t_fields := [(0, EAgg SUM (EField 9))]; t_groupby := None; t_res := 2; t_ret := 100; t_where := None |} in
-  let q := {| q_fields := None; q_groupby := None; q_period := 0; q_asof := 5; q_until := 9; q_where := None; q_now := 20 |} in
+  let q := {| q_fields := None; q_groupby := None; q_period := 0; q_asof := 5; q_until := 9; q_where := None; q_now := 20; q_vis := None; q_limit := None |} in
   let p ts := {| tp_ts := ts; tp_dims := []; tp_pt := {| p_vals := [(9, 1)]; p_md := [] |}; tp_flags := [] |} in
   map o_ts (spec_rows T q [p 3; p 6; p 7; p 8; p 10; p 11]) = [8; 10].
 Proof. vm_compute. reflexivity. Qed.
